@@ -67,6 +67,44 @@ pub fn drive(tr: &mut Tracer, rng: &mut StdRng, thorough: bool) {
             }
         }
     }
+    // deep scales: an operand whose scale was COMPUTED far away from its partner's (a product of two loaded decimals: scale
+    // gaps 255..276 and 511..531 sit on byte boundaries of the shift count of the aligning fast paths), then every
+    // overload of + and - with it on either side; the same with the zero x - x carrying that scale; sums of owned values
+    let gaps: Vec<i64> = if thorough { (250..=280).chain(505..=535).chain([767, 768, 769, 787, 1024, 1030]).collect() } else { vec![255, 256, 264, 275, 276, 512, 520, 531] };
+    for (gi, g) in gaps.iter().enumerate() {
+        for (op, fl) in [("add", &fa), ("sub", &fs)] {
+            for (i, f) in fl.iter().enumerate() {
+                if thorough && (i + gi) % 4 != 0 { continue; }
+                let (lk, rk) = form_kinds(f);
+                tr.reserve(12);
+                tr.emit(json!({"op": "reset"}));
+                let s1 = rng.gen_range(0..=(*g).min(40));
+                let base = rng.gen_range(-3..=3i64);
+                tr.emit(json!({"op": "load", "dst": 1, "a": dec(rng.gen_bool(0.5), &rand_digits(rng, 1 + i % 5), s1 + base)}));
+                tr.emit(json!({"op": "load", "dst": 2, "a": dec(false, &rand_digits(rng, 1 + (i + gi) % 4), g - s1)}));
+                let mf = ["val_val", "ref_ref", "val_ref"][i % 3];
+                tr.emit(json!({"op": "mul", "form": mf, "a": {"r": 1}, "b": {"r": 2}, "dst": 3}));      // scale base + g
+                tr.emit(json!({"op": "load", "dst": 4, "a": dec(rng.gen_bool(0.5), &rand_digits(rng, 1 + (i + gi) % 12), base)}));            // gap g
+                if (i + gi) % 5 == 0 { tr.emit(json!({"op": "sub", "form": "val_val", "a": {"r": 3}, "b": {"r": 3}, "dst": 3})); }        // the zero carrying scale base + g
+                let int_l = if lk.ends_with("bigint") { dec(i % 3 == 0, ["7", "1", "12", "0"][i % 4], 0) } else { dec(false, ["2", "1", "10", "0"][i % 4], 0) };
+                let int_r = if rk.ends_with("bigint") { dec(i % 5 == 0, ["7", "1", "12", "0"][(i + 1) % 4], 0) } else { dec(false, ["3", "1", "10", "0"][(i + 1) % 4], 0) };
+                if is_dec_kind(&lk) {
+                    let bv = if is_dec_kind(&rk) { json!({"r": 4}) } else { int_r.clone() };
+                    let dst = if lk == "assign" { 3 } else { 5 };
+                    tr.emit(json!({"op": op, "form": f, "a": {"r": 3}, "b": bv, "dst": dst}));
+                }
+                if is_dec_kind(&rk) && lk != "assign" {
+                    let av = if is_dec_kind(&lk) { json!({"r": 4}) } else { int_l.clone() };
+                    tr.emit(json!({"op": op, "form": f, "a": av, "b": {"r": 3}, "dst": 6}));
+                }
+                if i % 9 == 0 {
+                    let sf = ["owned", "refs"][(i / 9) % 2];
+                    tr.emit(json!({"op": "sum", "form": sf, "xs": [{"r": 4}, {"r": 3}, {"r": 1}], "dst": 5}));
+                    tr.emit(json!({"op": "cmp", "form": "cmp_val", "a": {"r": 5}, "b": {"r": 4}}));
+                }
+            }
+        }
+    }
     for _ in 0..nprog {
         tr.reserve(50);
         tr.emit(json!({"op": "reset"}));
